@@ -36,15 +36,16 @@ META = {
 }
 
 INV = ["TypeOK", "ConcurrencyBound", "InOrder", "OnePerStatement", "FailFastFirst", "FutureAtMostOnce", "FutureCompleted",
-       "NotStuck"]
+       "NotStuck", "EveryStatementAnswered"]
 WITNESSES = ["SyncChain", "WaitAndWake", "FailFastWhileRunning", "FutureByCaller", "GenWaits", "FullConcurrency",
-             "ConsumerBeforeLoopReturn"]
+             "ConsumerBeforeLoopReturn", "DeferredDelivered"]
 ALL_BEHS = {"raise", "done_ok", "done_err", "later_ok", "later_err"}
-ACTIONS = ("EmptyCall", "BeginSubmit", "Start", "Put", "Ret", "FutCheck", "LoopReturn", "CompleteAny", "Collect", "Wake", "Consume", "GWake")
+ACTIONS = ("EmptyCall", "BeginSubmit", "Start", "Put", "Ret", "FutCheck", "LoopReturn", "CompleteAny", "RunDeferredAny", "Collect", "Wake", "Consume", "GWake")
 
 
 def consts(maxn):
-    return {"MaxN": maxn, "Variants": {"list", "gen", "future"}, "Behs": ALL_BEHS}
+    # RecChoices: _ConcurrentExecutor.max_error_recursion - 100 as shipped (never reached here) and shrunk to 2
+    return {"MaxN": maxn, "RecChoices": {2, 100}, "Variants": {"list", "gen", "future"}, "Behs": ALL_BEHS}
 
 
 def spec_violation(ctx, res, label):
@@ -114,7 +115,7 @@ def run(ctx):
                 selftest = states
         kinds = set(cfgd["beh"])
         if cfgd["n"] >= 2 and len(kinds) >= 2 and any(a["name"] in ("Wake", "GWake") for a in acts):
-            ctx.nontrivial((cfgd["n"], cfgd["c"], cfgd["failFast"], cfgd["variant"], tuple(cfgd["beh"]),
+            ctx.nontrivial((cfgd["n"], cfgd["c"], cfgd["rec"], cfgd["failFast"], cfgd["variant"], tuple(cfgd["beh"]),
                             tuple(a["i"] for a in acts if a["name"] == "Complete")))
         if replayed % 300 == 1:
             ctx.sample({"direction": "spec->code", "config": cfgd, "actions": ["%s(%d)" % (a["name"], a["i"]) for a in acts]})
